@@ -282,6 +282,7 @@ CBMC_BASE = ["--no-malloc-may-fail", "--no-undefined-shift-check", "--no-signed-
              "--sat-solver", "cadical", "--slice-formula", "--unwinding-assertions"]
 CBMC_FUNCTIONAL = ["--no-bounds-check", "--no-pointer-check", "--no-div-by-zero-check"]
 
+MAX_REPLAYS = int(os.environ.get("VERIF_MAX_REPLAYS", "2"))
 IGNORED_CLASSES = {"reachability_check"}
 INCONCLUSIVE_CLASSES = {"unwind", "unsupported_construct", "sanity_check", "internal", "unsupported_struct", "unsound_experimental"}
 
@@ -646,6 +647,11 @@ def run_property(prop, tier, seed):
         for i, j in enumerate(jobs):
             r = j.result
             if r.status != "failed":
+                continue
+            if len(violations) >= MAX_REPLAYS:
+                # the property is already shown violated by natively reproduced counterexamples; further failing
+                # harnesses are listed in the evidence but not replayed (each replay is a solver run plus two native builds)
+                notes.append(f"{j.harness}: failed ({r.reason[:160]}); not replayed, {len(violations)} violation(s) already reproduced")
                 continue
             seen_desc = set()
             reproduced_any = False
